@@ -35,7 +35,7 @@ def witness(ev: dict, clause: str) -> tuple[str, str]:
     if law == "Total":
         return "exception", "; ".join(ev["raised"][:3])
     n = range(len(ut))
-    if law.startswith("OfferedCompatible") and not law.endswith("Spec"):
+    if law.startswith("OfferedCompatible"):   # (the Spec variant is located with the real matrix too)
         key = "offR" if cls == "Random" else "offG"
         for i in n:
             for g in ev[key][i]:
@@ -145,6 +145,8 @@ def run_histories(ctx: Ctx) -> None:
                                                             "prov": jobs[idx][3]})
     for t in traces[:1] + traces[-1:]:
         ctx.sample(t["ev"])
+    for line in sorted({d for d in ctx.drift if d.startswith("Drift_") and "history" in d})[:6]:
+        print(f"DRIFT (no verdict): {line[:300]}")
 
 
 def run(ctx: Ctx) -> None:
